@@ -15,8 +15,8 @@ ASSUMPTIONS = [
     "delta of the returned permutant is evaluated with the oracle's exact Das-Pappu definition on the permutant's symbolic classes (C02 relates it to get_delta)",
 ]
 OUTSIDE = ["sequence lengths above the bound"]
-NMAX = {"quick": 9, "thorough": 22}
-NPERM = {"quick": 8, "thorough": 11}
+NMAX = {"quick": 9, "thorough": 16}
+NPERM = {"quick": 8, "thorough": 10}
 ITEM_TIMEOUT = {"quick": 400, "thorough": 2400}
 
 
